@@ -1,5 +1,5 @@
 """registry of the checks"""
-from . import p_front
+from . import p_front, p_exec
 
 CHECKS = {
     'C01': p_front.c01,
@@ -7,6 +7,9 @@ CHECKS = {
     'C11': p_front.c11,
     'C12': p_front.c12,
     'C13': p_front.c13,
+    'C03': p_exec.c03,
+    'C04': p_exec.c04,
+    'C14': p_exec.c14,
 }
 
 # properties whose thorough tier also runs the release build of the harness
